@@ -382,41 +382,48 @@ func c02(c *fw.Ctx) {
 	tailLen := c.Pick(4, 6)
 	for fam := 0; fam < 2; fam++ {
 		for k := 0; k <= 26; k++ {
-			fam, k := fam, k
-			c.Run(fmt.Sprintf("eod-shift/%d/%d", fam, k), func(r *fw.Rec) {
-				native, other := byte('a'), byte('A')
-				class := "text-eod-shift-tails"
-				if fam == 0 {
-					native, other = 'A', 'a'
-					class = "c40-eod-shift-tails"
-				}
-				alpha := []rune{rune(native), '1', rune(other), '!', 0xEC, 0xA0, 0xE0, 0x85}
-				body := make([]rune, k)
-				for i := range body {
-					body[i] = rune(native) + rune(r.Rng.Intn(26))
-				}
-				tail := make([]rune, 0, tailLen)
-				var rec func() bool
-				rec = func() bool {
-					if len(tail) > 0 {
-						if !c02One(r, dmOpts{text: string(body) + string(tail)}, class) {
-							return false
-						}
+			for first := 0; first < 64; first++ { // one case per first two tail characters: a case stays far below the per-case CPU budget
+				fam, k, first := fam, k, first
+				c.Run(fmt.Sprintf("eod-shift/%d/%d/%d", fam, k, first), func(r *fw.Rec) {
+					native, other := byte('a'), byte('A')
+					class := "text-eod-shift-tails"
+					if fam == 0 {
+						native, other = 'A', 'a'
+						class = "c40-eod-shift-tails"
 					}
-					if len(tail) == tailLen {
+					alpha := []rune{rune(native), '1', rune(other), '!', 0xEC, 0xA0, 0xE0, 0x85}
+					body := make([]rune, k)
+					for i := range body {
+						body[i] = rune(native) + rune(r.Rng.Intn(26))
+					}
+					tail := make([]rune, 0, tailLen)
+					tail = append(tail, alpha[first/8])
+					if !c02One(r, dmOpts{text: string(body) + string(tail)}, class) {
+						return
+					}
+					tail = append(tail, alpha[first%8])
+					var rec func() bool
+					rec = func() bool {
+						if len(tail) > 0 {
+							if !c02One(r, dmOpts{text: string(body) + string(tail)}, class) {
+								return false
+							}
+						}
+						if len(tail) == tailLen {
+							return true
+						}
+						for _, a := range alpha {
+							tail = append(tail, a)
+							if !rec() {
+								return false
+							}
+							tail = tail[:len(tail)-1]
+						}
 						return true
 					}
-					for _, a := range alpha {
-						tail = append(tail, a)
-						if !rec() {
-							return false
-						}
-						tail = tail[:len(tail)-1]
-					}
-					return true
-				}
-				rec()
-			})
+					rec()
+				})
+			}
 		}
 	}
 	c.Exhaustive(fmt.Sprintf("C40 and Text runs of 0..26 native characters followed by every tail of up to %d characters over {1, 2, 3, 4-value characters}", tailLen))
